@@ -290,7 +290,7 @@ def rule_pruning(ctx: Ctx, rule: str) -> None:
     ctx.ob(rule, f'{WM}:WcMatch._walk/topdown-root', top == 'self._root_dir' and not any(k.arg == 'topdown' for k in w.iter.keywords),
            repo.loc(WM, w), 'os.walk(self._root_dir) top-down (pruning needs top-down)', norm_src(w.iter)[:80])
     removes = [c for c in walk_no_nested(w) if isinstance(c, ast.Call) and isinstance(c.func, ast.Attribute) and c.func.attr == 'remove']
-    ctx.floor(rule, 'pruning calls', len(removes), 2)
+    ctx.floor(rule, 'pruning calls', len(removes), 1)
     okr = dirs is not None and all(norm_src(c.func.value) == dirs for c in removes)
     ctx.ob(rule, f'{WM}:WcMatch._walk/remove-on-walk-list', okr, repo.loc(WM, w), f'{dirs}.remove(name)', '; '.join(norm_src(c) for c in removes),
            witness="WcMatch('.', '*', 'skip', RECURSIVE) must not return files below skip/")
@@ -351,9 +351,10 @@ def rule_abort_polls(ctx: Ctx, rule: str) -> None:
                f'{len(polls)} poll(s), unpolled cycle={cyc}',
                witness='after kill() the remaining files of the directory would still be yielded')
     ia = repo.func(WM, 'WcMatch.is_aborted')
-    rets = [s for s in ia.node.body if isinstance(s, ast.Return)]
-    ctx.ob(rule, f'{WM}:WcMatch.is_aborted/returns-flag', bool(rets) and norm_src(rets[0].value) == 'self._abort', repo.loc(WM, ia.node),
-           'return self._abort', norm_src(rets[0].value) if rets else 'none')
+    rets = [s for s in walk_no_nested(ia.node) if isinstance(s, ast.Return)]
+    from ..boolform import resolved_src
+    ctx.ob(rule, f'{WM}:WcMatch.is_aborted/returns-flag', len(rets) == 1 and resolved_src(ia.node, rets[0].value) == 'self._abort', repo.loc(WM, ia.node),
+           'return self._abort', resolved_src(ia.node, rets[0].value) if rets else 'none')
 
 
 def rule_abort_flag_writers(ctx: Ctx, rule: str) -> None:
